@@ -221,36 +221,69 @@ def trimLeadingZeros : Bytes → Bytes
 It is a parameter of the model: `none` = ParseFloat reported an error, `some n` = the rounded product. -/
 abbrev FloatFrac := Bytes → Nat → Option Nat
 
+/-- first half of the body of `mayParseUnit` (`if ok { … }`): a fraction was found after the whole number. -/
+def unitFrac (ff : FloatFrac) (st : IsoSt) (frac : Bytes) (unit : Nat) : IsoSt :=
+  let st := { st with sawFrac := true, invalid := st.invalid || decide (frac.length = 0) || decide (unit > hourNs) }
+  let (n, st) :=
+    if unit = secondNs then
+      let r := parsePaddedBase10 frac secondNs
+      (r.1, { st with invalid := st.invalid || !r.2 })
+    else
+      match ff frac unit with
+      | none => (0, { st with invalid := true, usedFloat := true })
+      | some n =>
+        let bad := decide ((trimRight isDigit (frac.drop 1)).length > 0)
+        (n, { st with usedFloat := true, invalid := st.invalid || bad })
+  let (s, co) := add64 st.sumNanos n 0
+  { st with sumNanos := s, overflow := st.overflow || decide (co > 0) }
+
+/-- second half of the body of `mayParseUnit`: trim leading zeros, `ParseUint`, `Mul64`, `Add64`, flags. -/
+def unitWhole (st : IsoSt) (whole : Bytes) (unit : Nat) : IsoSt :=
+  let whole := trimLeadingZeros whole
+  let (n, okn) := parseUint whole
+  let (hi, lo) := mul64 n unit
+  let (s, co) := add64 st.sumNanos lo 0
+  { st with sumNanos := s,
+            invalid := st.invalid || (!okn && decide (n ≠ maxU64)),
+            overflow := st.overflow || (!okn && decide (n = maxU64)) || decide (hi > 0) || decide (co > 0),
+            inaccurate := st.inaccurate || decide (unit > hourNs) }
+
 /-- `mayParseUnit(b, desHi, desLo, unit)`; returns the new captured state and the remaining bytes. -/
 def mayParseUnit (ff : FloatFrac) (st : IsoSt) (b : Bytes) (desHi desLo : UInt8) (unit : Nat) : IsoSt × Bytes :=
   let (number, suffix, ok) := cutBytes desHi desLo b
   if !ok ∨ st.sawFrac then (st, b)
   else
     let (whole, frac, okc) := cutBytes cDot cComma number
-    let st :=
-      if okc then
-        let st := { st with sawFrac := true, invalid := st.invalid || decide (frac.length = 0) || decide (unit > hourNs) }
-        let (n, st) :=
-          if unit = secondNs then
-            let r := parsePaddedBase10 frac secondNs
-            (r.1, { st with invalid := st.invalid || !r.2 })
-          else
-            match ff frac unit with
-            | none => (0, { st with invalid := true, usedFloat := true })
-            | some n =>
-              let bad := decide ((trimRight isDigit (frac.drop 1)).length > 0)
-              (n, { st with usedFloat := true, invalid := st.invalid || bad })
-        let (s, co) := add64 st.sumNanos n 0
-        { st with sumNanos := s, overflow := st.overflow || decide (co > 0) }
-      else st
-    let whole := trimLeadingZeros whole
-    let (n, okn) := parseUint whole
-    let (hi, lo) := mul64 n unit
-    let (s, co) := add64 st.sumNanos lo 0
-    ({ st with sumNanos := s,
-               invalid := st.invalid || (!okn && decide (n ≠ maxU64)),
-               overflow := st.overflow || (!okn && decide (n = maxU64)) || decide (hi > 0) || decide (co > 0),
-               inaccurate := st.inaccurate || decide (unit > hourNs) }, suffix)
+    let st := if okc then unitFrac ff st frac unit else st
+    (unitWhole st whole unit, suffix)
+
+/-- the `if len(durDate) > 0 { … }` block (nominal units). -/
+def parseDatePart (ff : FloatFrac) (st : IsoSt) (durDate : Bytes) : IsoSt :=
+  if durDate.length > 0 then
+    let (st, r) := mayParseUnit ff st durDate 89 121 yearNs   -- 'Y' 'y'
+    let (st, r) := mayParseUnit ff st r 77 109 monthNs        -- 'M' 'm'
+    let (st, r) := mayParseUnit ff st r 87 119 weekNs         -- 'W' 'w'
+    let (st, r) := mayParseUnit ff st r 68 100 dayNs          -- 'D' 'd'
+    { st with invalid := st.invalid || decide (r.length > 0) }
+  else st
+
+/-- the `if len(durTime) > 0 { … }` block (accurate units). -/
+def parseTimePart (ff : FloatFrac) (st : IsoSt) (durTime : Bytes) : IsoSt :=
+  if durTime.length > 0 then
+    let (st, r) := mayParseUnit ff st durTime 72 104 hourNs   -- 'H' 'h'
+    let (st, r) := mayParseUnit ff st r 77 109 minuteNs       -- 'M' 'm'
+    let (st, r) := mayParseUnit ff st r 83 115 secondNs       -- 'S' 's'
+    { st with invalid := st.invalid || decide (r.length > 0) }
+  else st
+
+/-- the tail of `parseDurationISO8601`: apply the sign, overflow test, error selection. -/
+def isoFinish (st : IsoSt) (neg : Bool) : Int × Option Err × Bool :=
+  let d := mayApplyDurationSign st.sumNanos neg
+  let overflow := st.overflow || (decide (neg ≠ decide (d < 0)) && decide (d ≠ 0))
+  if st.invalid then (0, some .syntax, st.usedFloat)
+  else if overflow then (0, some .range, st.usedFloat)
+  else if st.inaccurate then (d, some .inaccurate, st.usedFloat)
+  else (d, none, st.usedFloat)
 
 /-- `parseDurationISO8601(b)`: `(d, none)` success, `(d, some inaccurate)` best effort, `(0, some e)` error.
 The third component reports whether the float branch was used (bookkeeping for the oracle). -/
@@ -259,27 +292,9 @@ def parseDurationISO8601 (ff : FloatFrac) (b : Bytes) : Int × Option Err × Boo
   let (pre, suffix, okP) := cutBytes 80 112 suffix            -- 'P' 'p'
   let (durDate, durTime, okT) := cutBytes 84 116 suffix       -- 'T' 't'
   let st : IsoSt := { invalid := decide (pre.length > 0) || !okP || (okT && decide (durTime.length = 0)) || decide (durDate.length + durTime.length = 0) }
-  let st :=
-    if durDate.length > 0 then
-      let (st, r) := mayParseUnit ff st durDate 89 121 yearNs   -- 'Y' 'y'
-      let (st, r) := mayParseUnit ff st r 77 109 monthNs        -- 'M' 'm'
-      let (st, r) := mayParseUnit ff st r 87 119 weekNs         -- 'W' 'w'
-      let (st, r) := mayParseUnit ff st r 68 100 dayNs          -- 'D' 'd'
-      { st with invalid := st.invalid || decide (r.length > 0) }
-    else st
-  let st :=
-    if durTime.length > 0 then
-      let (st, r) := mayParseUnit ff st durTime 72 104 hourNs   -- 'H' 'h'
-      let (st, r) := mayParseUnit ff st r 77 109 minuteNs       -- 'M' 'm'
-      let (st, r) := mayParseUnit ff st r 83 115 secondNs       -- 'S' 's'
-      { st with invalid := st.invalid || decide (r.length > 0) }
-    else st
-  let d := mayApplyDurationSign st.sumNanos neg
-  let overflow := st.overflow || (decide (neg ≠ decide (d < 0)) && decide (d ≠ 0))
-  if st.invalid then (0, some .syntax, st.usedFloat)
-  else if overflow then (0, some .range, st.usedFloat)
-  else if st.inaccurate then (d, some .inaccurate, st.usedFloat)
-  else (d, none, st.usedFloat)
+  let st := parseDatePart ff st durDate
+  let st := parseTimePart ff st durTime
+  isoFinish st neg
 
 /-! ## Unix timestamps as (sec, nsec) pairs
 
